@@ -4,5 +4,5 @@ import sdp_common
 
 
 def run(ctx):
-    return sdp_common.run_sdp(ctx, "C06", ["default", "fallback", "planb", "alwaysdc"], 150, 4000,
+    return sdp_common.run_sdp(ctx, "C06", ["default", "fallback", "planb", "alwaysdc", "novideoB"], 150, 4000,
                               ["Parses", "UniqueMids", "BundleExact", "SectionComplete"])
